@@ -3,6 +3,7 @@
   uniqueness check, delete, index management): the resulting `docs` is a sublist of the input.
 -/
 import Proofs.C05Eq
+import Proofs.StoreFlag
 
 set_option linter.unusedSimpArgs false
 set_option linter.unusedVariables false
@@ -203,20 +204,16 @@ theorem dropColl_sub (c : Coll) : Sub (dropColl c) c := by
   unfold Sub dropColl; simp
 
 /-- the state left by a rejected insert (`stepColl` / `insertManyLoop`) -/
-theorem rejected_sub (now : Int) (c : Coll) (d : Val) :
-    Sub (match expire now (match d with
-          | .doc fs => if dhas "_id" fs then c else { c with nextOid := c.nextOid + 1 }
-          | _ => c) with
-        | .ok x => x
-        | .error _ => (match d with
-          | .doc fs => if dhas "_id" fs then c else { c with nextOid := c.nextOid + 1 }
-          | _ => c)) c := by
+theorem rejected_sub (now : Int) (c : Coll) (d : Val) : Sub (insertRejected now c d) c := by
   have h0 : Sub (match d with
           | .doc fs => if dhas "_id" fs then c else { c with nextOid := c.nextOid + 1 }
           | _ => c) c := by
     split
     · split <;> exact Sub.refl _
     · exact Sub.refl _
+  unfold insertRejected
+  show ((match expire now _ with | .ok x => x | .error _ => _).markStored _).docs.Sublist c.docs
+  rw [markStored_docs]
   split
   · rename_i x h; exact Sub.trans (expire_sub now _ _ h) h0
   · exact h0
